@@ -186,7 +186,13 @@ fn case<T: PivRing>(ctx: &mut Ctx, rng: &mut Rng) where for<'x> &'x T: RingOps<T
     trace::set_policy(policy, rng.next_u64(), nthreads.min(4));
     trace::start_recording();
     let pool = &pools()[&nthreads];
-    let res = guarded(|| pool.install(|| find_pivots(&a, ptype, cond)));
+    // one call in four goes through the public PivotFinder object instead of the free function
+    let via_object = rng.chance(1, 4);
+    let res = guarded(|| pool.install(|| if via_object {
+        let mut f = yui_matrix::sparse::pivot::PivotFinder::new(&a, ptype, cond);
+        f.find_pivots();
+        f.result()
+    } else { find_pivots(&a, ptype, cond) }));
     let log = trace::stop_recording();
     trace::set_policy(Policy::None, 0, 2);
 
